@@ -248,7 +248,7 @@ def run(ctx):
         'real simulator and with Model/SimKernel.v on every run)',
         'decoder environment: any (valid, c) stream (req_transducer) / a producer that holds valid+char until ready was high at an edge (req_*); '
         'encoder environment: any ready stream, enough ready cycles for completion',
-        'widths: enables and handshake wires >= 1 bit, v wire >= 7 bits (ASCII), response size >= 1 (size = 0: finding C20-F1)']
+        'widths: enables and handshake wires >= 1 bit, v wire >= 7 bits (ASCII); response size any k >= 0']
 
 
 def replay(rp):
